@@ -26,12 +26,24 @@ CHECKS = {
 }
 
 CHECKS['C04'] = ('model_checking',
-  'explicit-state exploration of edit programs under nnx transforms vs eager execution',
-  'Edit programs (value updates, added/removed attributes, static changes) are run under '
-  'nnx.jit / nnx.remat on the real implementation and compared with eager execution on a fresh '
-  'copy of the same graph: return value, graphdef and state.',
-  'First version: two-step edit programs on one object; aliasing, control flow and call '
-  'histories are added in later revisions.', '§4 C04')
+  'bounded-exhaustive edit programs x aliased argument graphs x call histories on one shared '
+  'transformed function, differential against eager execution with identity-labelled canonical '
+  'graphs',
+  'Every edit program up to length 2 (quick) / 3 (thorough) over an op alphabet covering value '
+  'updates, static sets, added / deleted / re-bound attributes, new sub-objects, swaps and '
+  'self-references is run under nnx.jit, nnx.remat and nnx.cached_partial(nnx.jit(f), obj) on every '
+  'base argument graph (single, cyclic, disjoint, same object twice, shared sub-node, shared '
+  'Variable, object plus its bare Variable), through every call history of up to 2 / 3 calls with '
+  'between-call actions that force trace-cache hits and misses on one shared transformed function. '
+  'After every call the return value, the canonical form of all argument graphs and its '
+  'identity-labelled version (caller\'s own objects, new aliasing) are compared with the same body '
+  'run eagerly on a fresh copy. Value-only programs are also run under nnx.cond (both predicates), '
+  'switch (each index), while_loop and fori_loop (trip counts 0-3) against the selected branch / '
+  'unrolled Python loop; structural programs there must raise or agree with eager; for '
+  'cached_partial a net structure change of the cached node must raise ValueError.',
+  'States are (canonical argument structure, set of structures the function has seen); every '
+  'transition is a real transformed call. Data are integer float32 scalars; Variable metadata '
+  'edits (observed: dropped by nnx.jit) and detached objects are out of scope.', '§4 C04')
 CHECKS['C05'] = ('model_checking',
   'bounded-exhaustive enumeration of DSL programs with one lifted-transformed child vs the plain '
   'program + explicit-state search over call histories of one jitted class',
@@ -210,6 +222,135 @@ CHECKS['C16'] = ('exploration',
   'filter tuples of length <= 2 (a defect that needs three filters is seen only by thorough); '
   'is_leaf true at the root, separators occurring in keys, prefix-conflicting flat dicts and int '
   'keys with a separator are outside the claim.', '§4 C16')
+
+CHECKS['C03'] = ('model_checking',
+  'bounded-exhaustive enumeration of NNX object graphs up to isomorphism (restricted-growth node '
+  'numbering, ordered slot tuples) x explicit-state BFS over update / pop histories on the real '
+  'implementation, with a plain-Python reference model and canonical-form (identity-partition) '
+  'oracle',
+  'Every object graph of the stated families is built for real and explored. The quick tier covers '
+  'all 7,189 graphs with <= 2 Module nodes, <= 2 slots per node (or one two-entry list / tuple / '
+  'dict) and <= 1 container per graph; the thorough tier additionally covers every 3-node plain '
+  'topology, 3-slot nodes and a 3-node one-list slice. Slots are drawn from node references (self '
+  'loops, back edges, diamonds), a 3-Variable pool (Param, BatchStat, tagged Param subclass), raw '
+  'np / jax arrays and int / str / None statics. On each graph a BFS over histories of 4 update '
+  'variants and 5 pop filter tuples executes in every state split+merge, split with every ordered '
+  'filter tuple and merge under every permutation of the states, clone, state, graphdef and '
+  'iter_graph on flax.nnx itself; each result and the graph afterwards are compared with a '
+  'table-based reference model through a canonical form recording types, statics, Variable type / '
+  'value / metadata and the identity partition.',
+  'states = distinct canonical graphs reached per enumerated graph; transitions = nnx calls '
+  'executed and compared; larger graphs, nested containers, non-Module roots and user pytrees are '
+  'not decided; pop of a shared Variable follows the first-path reference; leaf arrays are '
+  'treated as immutable values.', '§4 C03')
+CHECKS['C12'] = ('exploration',
+  'bounded-exhaustive hyper-parameter grid x full one-hot (input x kernel x bias) basis on the real '
+  'Linen and NNX layers vs independent float64 NumPy direct-sum references; interval float32 '
+  'enclosure for norms; clause-wise Dropout oracle on a fixed key pool',
+  'For every configuration of the stated grids of 16 layer families the Linen and NNX layers are '
+  'run on the real code and compared with NumPy references written from the docstrings. Conv, '
+  'ConvLocal, ConvTranspose, Dense, DenseGeneral, Einsum, Embed.attend and avg-pool are evaluated '
+  'on every pair of input and kernel one-hots plus the bias basis, so agreement is exact and '
+  'decides the layer for all real inputs of those shapes and configurations. Norm layers agree '
+  'within a derived float32 rounding enclosure on 6 data patterns; BatchNorm running statistics '
+  'follow m*old + (1-m)*batch and stay bit-identical in inference; Dropout clauses hold on 8 keys; '
+  'Linen and NNX outputs and state updates are bitwise equal; configurations the back-end rejects '
+  'are pinned by an explicit predicate and must raise on both APIs.',
+  'Real-valued behaviour of the non-linear layers is only claimed on the 6 patterns; spatial size '
+  '<= 6, channels <= 3; the ConvTranspose CIRCULAR alignment convention is pinned from the source. '
+  'One Linen/NNX disagreement (Embed.attend dtype) is listed in known_findings.json.', '§4 C12')
+CHECKS['C19'] = ('exploration',
+  'bounded-exhaustive configuration enumeration on the real Linen / legacy-partitioning / NNX '
+  'code, one traced scan / vmap nest shared by the whole names alphabet, with a tuple-insertion '
+  'reference and an un-annotated twin program as differential oracles; exhaustive ordered '
+  'rule-list enumeration against a docstring-derived priority reference',
+  'For every names tuple over {None,x,y,z} of rank 1-3 and every stacking position 0..rank at '
+  'every level, the real nn.scan / nn.vmap, scan_with_axes / vmap_with_axes and nnx.scan / nnx.vmap '
+  '(alone and nested, each level with its own partition name and axis size) run at init and at '
+  'apply. After the transform, names must have one entry per dimension and equal the inner names '
+  'with each level\'s partition name inserted at its position, outermost last; inside the body they '
+  'must be the inner names again; values must equal the un-annotated program bitwise; '
+  'get_partition_spec / get_axis_names must return exactly the names (PartitionSpec() for '
+  'un-annotated arrays). logical_to_mesh_axes is compared with a reference priority algorithm on '
+  'every names tuple of rank <= 3 over {a,b,c,None} and every ordered rule list of length <= 3 '
+  '(quick) / 4 (thorough) over 12 rules, with the no-shared-mesh-axis invariant.',
+  'Quick covers two-level nests for ranks 1-2 only; rank-3 two-level and three-level nests are '
+  'thorough only. One CPU device, no mesh. Negative stacking axes are outside the enumerated '
+  'domain (observed to misalign names; optional units behind C19_NEGATIVE_AXES=1).', '§4 C19')
+
+CHECKS['C15'] = ('model_checking',
+  'explicit-state BFS over operation histories on live objects (replay from history, canonical-form '
+  'dedup) with a pure-Python contents model, identity-aliasing checks and scribble-after-return; '
+  'bounded-exhaustive field layouts with a jit-cache reference model',
+  'Model checking on the implementation itself. Source dicts: every one of depth <= 2 (thorough: '
+  'plus depth 3 with <= 5 keys) over 6 leaf kinds, plus deep chains; four constructors. From each, '
+  'every history of up to 3 (quick) / 4 (thorough) actions is explored, drawn from source mutations '
+  'at every path, about 25 read APIs each followed by mutating everything returned, all mutators, '
+  'and hash. In every state the FrozenDict contents, hash, repr, inner FrozenDicts and the source '
+  'are compared with a plain-Python model; no returned dict may be a dict inside _dict; all '
+  'insertion orders are compared for ==, hash and tree_flatten; pickle, deepcopy, flatten / '
+  'unflatten, tree_map and state_dict round trips are checked. For struct, every layout of <= 3 '
+  'fields (bare / field(True) / field(False) / user metadata, with and without defaults) x '
+  'decorator, PyTreeNode, inherited and kw_only is explored over replace histories: frozen-ness, '
+  'field identity, leaves = non-static fields in declaration order, treedef equality iff statics '
+  'equal, trace count = number of distinct static tuples, class / statics preserved by tree_map, '
+  'jit, vmap and grad.',
+  'A state is (canonical source dict, FrozenDict contents, hash-cached bit); every transition '
+  'executes real flax code; in-place edits of list leaves, writing private slots and the raw '
+  'children handed to JAX by the pytree protocol are outside the statement.', '§4 C15')
+CHECKS['C17'] = ('model_checking',
+  'explicit-state exploration of gradient-step histories and metric update / reset histories on the '
+  'real objects, differential against the hand-written optax loop (bitwise) and NumPy statistics',
+  'Every gradient history up to length 3 (quick) / 4 (thorough) over a 3-element integer-valued '
+  'gradient pool is executed on flax.training TrainState, nnx.Optimizer and nnx.TrainState for 8 '
+  '(13) optax transformations x parameter trees x wrt filters x eager / jit, and after every call '
+  'params, every opt_state leaf, step, Variables outside wrt, static attributes and the old '
+  'functional instance are compared bitwise with the hand-written tx.update + apply_updates loop. '
+  'For nnx metrics a breadth-first search over update / reset histories covers every stream of '
+  'length <= 5 (6) over a 3-value pool, every composition into consecutive batches and a reset at '
+  'every position, merging states only on a complete key; compute() is compared with the NumPy '
+  'statistic after every transition (exact for Average / Accuracy, 1e-5 relative for Welford).',
+  'Data are small integers in float32 from fixed pools; the jit oracle is the jitted hand loop; '
+  'eager optax.MultiSteps histories are one step shorter; extra tx.update kwargs are not '
+  'exercised.', '§4 C17')
+CHECKS['C08'] = ('exploration',
+  'bounded-exhaustive configuration enumeration on the real nnx.vmap / scan / grad / split_rngs with '
+  'a differential oracle (independent first-match filter evaluator + per-index stack / Python loop '
+  'on freshly built objects; jax.grad over a plain value dict)',
+  'Every enumerated configuration runs on the real implementation: all Param x BatchStat x Count '
+  'axis assignments over {0, 1, None[, Carry]} plus axis 2 / -1, five StateAxes encodings, all '
+  'ordered pairs of 11 overlapping filters, in / out-axes prefix forms over args, dict, tuple and '
+  'new-module outputs, length 1-3, reverse, two-module and two-array call forms, and seven aliasing '
+  'structures over every axis pair; for grad argnums / DiffState over seven filters, has_aux, '
+  'value_and_grad and four side-effect bodies; for rngs nine split_rngs only-patterns x three usage '
+  'forms. Outputs, every Variable\'s final value and nnx.state of every argument are compared '
+  'bitwise (gradients 1e-6) with the per-index stack, the Python loop, or jax.grad of the loss over '
+  'plain values; None-axis disagreement and inconsistent aliasing must raise ValueError (the latter '
+  'leaving state untouched); gradients contain exactly the selected variables; forward side effects '
+  'are applied once; per-index keys are pairwise distinct, unsplit streams equal, nothing reused '
+  'after restore.',
+  'Quick multiplies out the primary dimensions and runs the secondary ones through by a '
+  'mixed-radix counter (seed-independent), thorough multiplies them out; integer-valued data; '
+  'writes to broadcast (None-axis) state inside nnx.scan are out of scope (observed: silently '
+  'dropped).', '§4 C08')
+
+CHECKS['C18'] = ('model_checking',
+  'explicit-state BFS over call histories on the real bridge wrappers, with a plain-Linen shadow '
+  'run (ToNNX side) and a directly constructed NNX twin (ToLinen side) as differential oracles',
+  'For every member of a hand-written family (stateless, batch-stats plus a custom collection, '
+  'dropout rng, Partitioned or sharded params, call-mutated static data, nesting depth 0-2, each '
+  'also inside a parent of the other API), 3 input shapes, and every call history up to depth 3 '
+  '(thorough: 4) over {train, eval, other / alt} x mutable filters x rng options, the real ToNNX '
+  'wrapper is executed step by step on one live object and the real ToLinen wrapper on its '
+  'variable dict, with states deduplicated on the canonical state held. Each transition is '
+  'compared bitwise with an oracle that uses no bridge code (plain linen init / apply plus dict '
+  'merge; an NNX module built by its constructor). At every state: collection <-> Variable-type '
+  'placement, sharding names, the graphdef in the nnx collection, returned updates vs the oracle\'s '
+  'post-state, round trips in both directions with inputs intact, and the name <-> type registry '
+  'being a bijection on every name and type seen.',
+  'The family and data pool are finite; bridge.Module / bridge.compact and meshes are outside the '
+  'claim; nnx.Rngs / clone / reseed / merge and Linen make_rng are trusted (C03 / C09). One '
+  'configuration (same name in two collections) is listed in known_findings.json.', '§4 C18')
 
 NOT_APPLICABLE = {}
 
